@@ -4,6 +4,7 @@ import (
 	"errors"
 	"fmt"
 	"math"
+	"regexp"
 	"unicode"
 
 	"buf.build/gen/go/bufbuild/protovalidate/protocolbuffers/go/buf/validate"
@@ -770,6 +771,9 @@ func buildField(ww *conversionVisitor, node sourcewalk.FieldNode) (*descriptorpb
 				stringRules.Pattern = gl.Ptr(id62.PatternString)
 
 			case *schema_j5pb.KeyFormat_Custom_:
+				if err := checkPattern(ff.Custom.Pattern); err != nil {
+					return nil, err
+				}
 				stringRules.Pattern = &ff.Custom.Pattern
 
 			case *schema_j5pb.KeyFormat_Informal_:
@@ -793,6 +797,11 @@ func buildField(ww *conversionVisitor, node sourcewalk.FieldNode) (*descriptorpb
 		ww.setJ5Ext(node.Source, desc.Options, "string", st.String_.Ext)
 
 		if st.String_.Rules != nil {
+			if st.String_.Rules.Pattern != nil {
+				if err := checkPattern(*st.String_.Rules.Pattern); err != nil {
+					return nil, err
+				}
+			}
 			rules := &validate.FieldConstraints{
 				Type: &validate.FieldConstraints_String_{
 					String_: &validate.StringRules{
@@ -878,6 +887,16 @@ func buildField(ww *conversionVisitor, node sourcewalk.FieldNode) (*descriptorpb
 		return nil, fmt.Errorf("unknown schema type %T", st)
 	}
 
+}
+
+// checkPattern rejects a pattern which is not a valid RE2 expression: the
+// validator compiles the pattern with the same syntax, and a pattern it cannot
+// compile makes validation of every message of the type fail.
+func checkPattern(pattern string) error {
+	if _, err := regexp.Compile(pattern); err != nil {
+		return fmt.Errorf("pattern %q is not a valid regular expression: %w", pattern, err)
+	}
+	return nil
 }
 
 // checkIntegerBounds rejects bounds which the validation rule cannot express:
